@@ -884,6 +884,152 @@ def _encoder_table(p) -> Dict[str, Dict[str, bool]]:
     return table
 
 
+# (added after seeded change s7-c12-1) WHICH characters are special to the reader depends on the handler's configuration:
+# `URLEncodedFormHandler(csv=True)` makes the same handler's deserializer split values on ','.  A `safe` argument is
+# therefore judged once per CONFIGURATION - every assignment of True / False to the constructor's boolean options it (or the
+# reader's `csv` argument) reads through `self.<attr>` -: a conditional `safe=',' if self._csv else ''` is evaluated for each
+# of them, and a character that the SAME configuration's reader treats as a delimiter ('%', '&', '=', '+' always, ',' when
+# the `csv` argument of parse_query_string() is true under it) must not be declared safe.
+
+PARSE_QS = URI_MOD + '.parse_query_string'
+_CSV_DELIM = ','
+
+
+class _NotEvaluable(Exception):
+    pass
+
+
+def _option_attrs(p, c) -> Dict[str, str]:
+    """self.<attr> -> constructor option (a parameter with a boolean default stored as it is / through bool())"""
+    init = c.methods.get('__init__')
+    if init is None:
+        return {}
+    a = init.node.args
+    pos = a.posonlyargs + a.args
+    opts = set()
+    for arg, d in list(zip(pos[len(pos) - len(a.defaults):], a.defaults)) + [(x, d) for x, d in zip(a.kwonlyargs, a.kw_defaults) if d is not None]:
+        if isinstance(d, ast.Constant) and isinstance(d.value, bool):
+            opts.add(arg.arg)
+    out: Dict[str, str] = {}
+    clash = set()
+    for n in walk_self(init.node):
+        if isinstance(n, (ast.Assign, ast.AnnAssign)):
+            tgts = n.targets if isinstance(n, ast.Assign) else [n.target]
+            v = n.value
+            if isinstance(v, ast.Call) and isinstance(v.func, ast.Name) and v.func.id == 'bool' and len(v.args) == 1 and not v.keywords:
+                v = v.args[0]
+            for t in tgts:
+                if isinstance(t, ast.Attribute) and isinstance(t.value, ast.Name) and t.value.id == 'self':
+                    if isinstance(v, ast.Name) and v.id in opts and t.attr not in out:
+                        out[t.attr] = v.id
+                    else:
+                        clash.add(t.attr)
+    # an attribute any OTHER method writes is not a constructor option any more
+    for m in c.methods.values():
+        if m is init:
+            continue
+        for n in walk_self(m.node):
+            if isinstance(n, ast.Attribute) and isinstance(n.ctx, (ast.Store, ast.Del)) and isinstance(n.value, ast.Name) and n.value.id == 'self':
+                clash.add(n.attr)
+    return {k: v for k, v in out.items() if k not in clash}
+
+
+def _config_eval(p, f: Func, e, env: Dict[str, bool]):
+    """value of `e` (text / bool) under one configuration `env` (self.<attr> -> bool)"""
+    if isinstance(e, ast.Attribute) and isinstance(e.value, ast.Name) and e.value.id == 'self':
+        if e.attr in env:
+            return env[e.attr]
+        raise _NotEvaluable(short(e, 40))
+    if isinstance(e, ast.Constant):
+        return e.value
+    if isinstance(e, ast.IfExp):
+        return _config_eval(p, f, e.body if _config_eval(p, f, e.test, env) else e.orelse, env)
+    if isinstance(e, ast.BoolOp):
+        v = None
+        for x in e.values:
+            v = _config_eval(p, f, x, env)
+            if (isinstance(e.op, ast.Or) and v) or (isinstance(e.op, ast.And) and not v):
+                return v
+        return v
+    if isinstance(e, ast.UnaryOp) and isinstance(e.op, ast.Not):
+        return not _config_eval(p, f, e.operand, env)
+    if isinstance(e, ast.Compare) and len(e.ops) == 1 and isinstance(e.ops[0], (ast.Is, ast.IsNot, ast.Eq, ast.NotEq)):
+        l, r = _config_eval(p, f, e.left, env), _config_eval(p, f, e.comparators[0], env)
+        if not all(isinstance(x, bool) or x is None for x in (l, r)) and isinstance(e.ops[0], (ast.Is, ast.IsNot)):
+            raise _NotEvaluable(short(e, 40))
+        same = l == r and type(l) is type(r)
+        return same if isinstance(e.ops[0], (ast.Is, ast.Eq)) else not same
+    if isinstance(e, ast.BinOp) and isinstance(e.op, ast.Add):
+        l, r = _config_eval(p, f, e.left, env), _config_eval(p, f, e.right, env)
+        if type(l) is type(r) and isinstance(l, (str, bytes)):
+            return l + r
+        raise _NotEvaluable(short(e, 40))
+    if isinstance(e, ast.BinOp) and isinstance(e.op, ast.Mult):
+        l, r = _config_eval(p, f, e.left, env), _config_eval(p, f, e.right, env)
+        if isinstance(l, (str, bytes)) and isinstance(r, (bool, int)):
+            return l * int(r)
+        if isinstance(r, (str, bytes)) and isinstance(l, (bool, int)):
+            return r * int(l)
+        raise _NotEvaluable(short(e, 40))
+    if isinstance(e, ast.Call) and isinstance(e.func, ast.Name) and e.func.id == 'bool' and len(e.args) == 1 and not e.keywords:
+        return bool(_config_eval(p, f, e.args[0], env))
+    if isinstance(e, ast.Subscript) and isinstance(e.value, (ast.Tuple, ast.List)) and not isinstance(e.slice, ast.Slice):
+        i = _config_eval(p, f, e.slice, env)                    # ('', ',')[self._csv]
+        if isinstance(i, (bool, int)) and -len(e.value.elts) <= int(i) < len(e.value.elts):
+            return _config_eval(p, f, e.value.elts[int(i)], env)
+        raise _NotEvaluable(short(e, 40))
+    if isinstance(e, ast.Name):
+        binds = [b for b in _assignments(f.node, e.id)]
+        if len(binds) == 1 and binds[0][1] is not None and e.id not in f.params():
+            return _config_eval(p, f, binds[0][1], env)
+    v = p.fold(f.module, e, None, f)
+    if v is UNKNOWN:
+        raise _NotEvaluable(short(e, 40))
+    return v
+
+
+def _self_attrs_read(f: Func, e, depth=0) -> Set[str]:
+    out = set()
+    for x in ast.walk(e):
+        if isinstance(x, ast.Attribute) and isinstance(x.value, ast.Name) and x.value.id == 'self' and isinstance(x.ctx, ast.Load):
+            out.add(x.attr)
+        elif isinstance(x, ast.Name) and depth < 3 and x.id not in f.params():
+            binds = _assignments(f.node, x.id)
+            if len(binds) == 1 and binds[0][1] is not None:
+                out |= _self_attrs_read(f, binds[0][1], depth + 1)
+    return out
+
+
+def _reader_csv_arg(p, c):
+    """(method, call, expression | None) of the class's parse_query_string(...) call: the `csv` argument decides whether ','
+    splits values"""
+    target = p.func(PARSE_QS)
+    names = [x.arg for x in target.node.args.posonlyargs + target.node.args.args]
+    if 'csv' not in names:
+        raise AnchorError('%s has no csv parameter (%s)' % (PARSE_QS, names))
+    found = []
+    for m in c.methods.values():
+        for n in walk_self(m.node):
+            if isinstance(n, ast.Call) and isinstance(n.func, (ast.Name, ast.Attribute)):
+                t = p.resolve_callable(m, n.func)
+                if isinstance(t, Func) and t.qual == PARSE_QS:
+                    found.append((m, n))
+    m, call = single(found, 'parse_query_string(...) call of the form reader', c.qual)
+    if any(isinstance(a, ast.Starred) for a in call.args) or any(k.arg is None for k in call.keywords):
+        raise UnknownIdiom('%s: %s' % (m.qual, short(call, 80)))
+    given = dict(zip(names, call.args))
+    given.update({k.arg: k.value for k in call.keywords})
+    if 'csv' in given:
+        return m, call, given['csv']
+    a = target.node.args
+    pos = a.posonlyargs + a.args
+    dflt = dict(zip([x.arg for x in pos[len(pos) - len(a.defaults):]], a.defaults))
+    d = dflt.get('csv')
+    if not (isinstance(d, ast.Constant) and isinstance(d.value, bool)):
+        raise UnknownIdiom('%s: default of csv is %s' % (PARSE_QS, short(d, 40) if d is not None else 'missing'))
+    return m, call, d
+
+
 def r6_form_quoting(run):
     p = run.project
     table = _encoder_table(p)
@@ -916,21 +1062,56 @@ def r6_form_quoting(run):
             return (False, '%s leaves the form delimiters & = + unescaped' % q.rsplit('.', 1)[1])
         return True
 
-    def safe_const(f: Func, e, own) -> Optional[str]:
-        """the folded `safe` argument, or None when it is the enclosing quoting function's own parameter handed on"""
-        x = e.value if isinstance(e, ast.Starred) else e
-        if isinstance(x, ast.Name) and x.id in own:
-            return None
-        v = p.fold(f.module, e, None, f) if not isinstance(e, ast.Starred) else UNKNOWN
-        if not isinstance(v, (str, bytes)):
-            raise UnknownIdiom('%s: safe argument %s does not fold' % (f.qual, short(e, 40)))
-        return v.decode('latin-1') if isinstance(v, bytes) else v
+    options = _option_attrs(p, uc)
+    rd, rd_call, csv_arg = _reader_csv_arg(p, uc)
+    run.use(rd)
+    RW_CSV = "URLEncodedFormHandler(csv=True): resp.media = {'author': 'Doe, John'} is written as b'author=Doe,+John' and reads back as " \
+             "{'author': ['Doe', ' John']}"
+
+    def configurations(f: Func, e):
+        """every assignment of True / False to the constructor options that `e` or the reader's csv argument reads"""
+        attrs = sorted((_self_attrs_read(f, e) if func_owner_class(f) is not None and func_owner_class(f).qual == uc.qual else set())
+                       | _self_attrs_read(rd, csv_arg))
+        unknown = [a for a in attrs if a not in options]
+        if unknown:
+            raise UnknownIdiom('%s: self.%s is not a boolean constructor option stored as it is (options: %s)' % (
+                f.qual, unknown[0], sorted(options) or 'none'))
+        envs = [{}]
+        for a in attrs:
+            envs = [dict(env, **{a: b}) for env in envs for b in (False, True)]
+        return attrs, envs
 
     def check_safe(f: Func, call: ast.Call, e, own, what: str):
-        v = safe_const(f, e, own)
-        if v is not None:
-            run.check(not (set(v) & set(_FORM_SPECIAL)), '%s: no character that is special to the form reader (%% & = +) is exempted from escaping' % what,
-                      f, call, witness=['safe=%r' % v], runtime_witness=RW)
+        x = e.value if isinstance(e, ast.Starred) else e
+        if isinstance(x, ast.Name) and x.id in own:
+            return                                         # the enclosing quoting function's own parameter handed on
+        if isinstance(e, ast.Starred):
+            raise UnknownIdiom('%s: safe argument %s does not fold' % (f.qual, short(e, 40)))
+        attrs, envs = configurations(f, e)
+        bad, shown = [], []
+        for env in envs:
+            try:
+                v = _config_eval(p, f, e, env)
+                splits = _config_eval(p, rd, csv_arg, env)
+            except _NotEvaluable as ex:
+                raise UnknownIdiom('%s: safe argument %s does not fold (%s)' % (f.qual, short(e, 40), ex))
+            if not isinstance(v, (str, bytes)) or not isinstance(splits, bool):
+                raise UnknownIdiom('%s: safe argument %s does not fold' % (f.qual, short(e, 40)))
+            v = v.decode('latin-1') if isinstance(v, bytes) else v
+            special = _FORM_SPECIAL + (_CSV_DELIM if splits else '')
+            cname = ', '.join('%s=%s' % (options[a], env[a]) for a in attrs) or 'every configuration'
+            shown.append('%s: safe=%r, the reader splits on %r' % (cname, v, special))
+            hit = sorted(set(v) & set(special))
+            if hit:
+                bad.append((cname, v, hit))
+        what_txt = '%s: no character that is special to the SAME configuration\'s form reader (%% & = + always, \',\' when it splits ' \
+                   'comma-separated values) is exempted from escaping' % what
+        if not bad:
+            run.ok(what_txt, f.loc(call), call)
+            return
+        cname, v, hit = bad[0]
+        run.fail(what_txt + ' - configuration %s declares %s safe' % (cname, ' '.join(repr(h) for h in hit)), f, call, where=f.loc(call),
+                 witness=shown, runtime_witness=RW_CSV if hit == [_CSV_DELIM] else RW)
 
     def scan_body(f: Func, root, own):
         """encoders applied inside root (a helper / lambda body): [(True | (False, why), call)]; `own` = parameters of that helper"""
